@@ -6,7 +6,9 @@ m_lastMessage, which accessor is stored, whether the store also happens on a dro
 value of the member; for SeqNumberAttr the initial value, the emitted expression (m_count++ /
 ++m_count) and the total increment per call; for RegExpFilter the accessor and that the verdict is
 match(...).hasMatch() (search).  Anything that does not have one of the recognised shapes raises
-AnchorError: the tie is then reported as broken instead of guessing."""
+AnchorError: the tie is then reported as broken instead of guessing.  fluent(): the SimplePipeline methods
+filterLevel / filterDuplicate / filter(QString) / addSeqNumber must append exactly one object of the translated class,
+built from the caller's argument (the harness also obtains every handler kind through them)."""
 import re
 from .common import rd, need, fn_body, strip_comments, AnchorError, HDR
 
@@ -152,6 +154,31 @@ def regexp():
     return FIELD[m.group(2)], 'RSearch'
 
 
+def fluent():
+    """what the fluent SimplePipeline methods install: each must append exactly one object of the class the rules
+    are stated (and translated above) for, with the caller's argument, and nothing else"""
+    t = sq(strip_comments(rd('simplepipeline.cpp')))
+    pre = r'SimplePipeline &SimplePipeline::'
+    post = r' \{ append\(%s\); return \*this; \}'
+    for sig, made, what in [
+            (r'filterLevel\(QtMsgType (\w+)\)', r'LevelFilterPtr::create\(\1\)', 'filterLevel(t) appends LevelFilterPtr::create(t)'),
+            (r'filterDuplicate\(\)', r'DuplicateFilterPtr::create\(\)', 'filterDuplicate() appends DuplicateFilterPtr::create()'),
+            (r'filter\(const QString &(\w+)\)', r'RegExpFilterPtr::create\(\1\)', 'filter(QString) appends RegExpFilterPtr::create(regexp)'),
+            (r'addSeqNumber\(const QString &(\w+)\)', r'SeqNumberAttrPtr::create\(\1\)', 'addSeqNumber(name) appends SeqNumberAttrPtr::create(name)')]:
+        need(re.search(pre + sig + post % made, t), 'SimplePipeline::' + what + ' and returns *this')
+    for f, cls in [('filters/levelfilter.h', 'LevelFilter'), ('filters/duplicatefilter.h', 'DuplicateFilter'),
+                   ('filters/regexpfilter.h', 'RegExpFilter'), ('attrhandlers/seqnumberattr.h', 'SeqNumberAttr')]:
+        need(re.search(r'using %sPtr = QSharedPointer<%s>;' % (cls, cls), sq(strip_comments(rd(f)))),
+             '%sPtr is QSharedPointer<%s>' % (cls, cls))
+    h = sq(strip_comments(rd('simplepipeline.h')))
+    need(re.search(r'class (?:\w+ )?SimplePipeline : public SortedPipeline', h), 'SimplePipeline derives from SortedPipeline')
+    need(not re.search(r'\bappend\s*\(', h + sq(strip_comments(rd('sortedpipeline.h')))),
+         'SimplePipeline / SortedPipeline do not redeclare append (Pipeline::append adds the handler at the end)')
+    pb = sq(fn_body(strip_comments(rd('pipeline.cpp')), 'void Pipeline::append'))
+    need(re.fullmatch(r'if \(handler\.isNull\(\)\) return; m_handlers\.append\(handler\);', pb),
+         'Pipeline::append(handler) appends the non-null handler')
+
+
 def zlit(n):
     return '(%d)%%Z' % n
 
@@ -161,6 +188,7 @@ def generate():
     dcmp, dstore, dalways, dinit = duplicate()
     sinit, spost, sinc = seqnumber()
     rfield, rmode = regexp()
+    fluent()
     out = HDR % 'src/qtlogger/filters/{levelfilter.h,duplicatefilter.*,regexpfilter.cpp}, attrhandlers/seqnumberattr.*'
     out += 'Require Import List NArith ZArith.\nImport ListNotations.\nRequire Import QtlVerif.FiltersDefs.\n'
     out += 'Definition src_cfg : filters_cfg := {|\n'
